@@ -1,4 +1,5 @@
 import RoaringModel.Lemmas.BStoreBasic
+import RoaringModel.Lemmas.MaskLemmas
 /-!
 # BitmapStore range operations, rank/select, remove_smallest/biggest (bitmap_store.rs)
 
@@ -8,67 +9,1446 @@ set bits (facts about it: `Lemmas/BStoreBasic.lean`, proved in parallel by anoth
 namespace Roaring
 namespace BStore
 
+open Mask
+
+/-! ## Infrastructure: the structure of `toArray`, counting -/
+
+theorem popSum_foldl (ws : List Nat) (a : Nat) :
+    ws.foldl (fun acc w => acc + popcount w) a = a + popSum ws := by
+  unfold popSum
+  induction ws generalizing a with
+  | nil => simp
+  | cons w ws ih => simp only [List.foldl_cons]; rw [ih, ih (0 + popcount w)]; omega
+
+theorem popSum_nil : popSum [] = 0 := rfl
+theorem popSum_cons (w : Nat) (ws : List Nat) : popSum (w :: ws) = popcount w + popSum ws := by
+  show (w :: ws).foldl (fun acc w => acc + popcount w) 0 = _
+  rw [List.foldl_cons, popSum_foldl]; omega
+theorem popSum_append (a b : List Nat) : popSum (a ++ b) = popSum a + popSum b := by
+  induction a with
+  | nil => simp [popSum_nil]
+  | cons w a ih => simp only [List.cons_append, popSum_cons, ih]; omega
+
+theorem bitsOf_eq (k w : Nat) (hw : w < 2^64) : drainWord (64 * k) 64 w = bitsOf k w := by
+  rw [drainWord_eq _ _ hw]; rfl
+
+-- `toArrayFrom_nil`, `toArrayFrom_cons` : BStoreBasic.lean
+
+theorem toArrayFrom_append (k : Nat) (a b : List Nat) :
+    toArrayFrom k (a ++ b) = toArrayFrom k a ++ toArrayFrom (k + a.length) b := by
+  induction a generalizing k with
+  | nil => simp [toArrayFrom]
+  | cons w a ih =>
+    simp only [List.cons_append, toArrayFrom, ih, List.append_assoc, List.length_cons]
+    congr 3; omega
+
+theorem length_bitsOf (k w : Nat) (hw : w < 2^64) : (bitsOf k w).length = popcount w := by
+  unfold bitsOf; rw [List.length_map, popcount_eq w hw]
+
+theorem mem_bitsOf (k w x : Nat) : x ∈ bitsOf k w ↔ ∃ i, i < 64 ∧ w.testBit i = true ∧ x = 64 * k + i := by
+  unfold bitsOf
+  simp only [List.mem_map, mem_bitPos]
+  constructor
+  · rintro ⟨i, ⟨h1, h2⟩, h3⟩; exact ⟨i, h1, h2, h3.symm⟩
+  · rintro ⟨i, h1, h2, h3⟩; exact ⟨i, ⟨h1, h2⟩, h3.symm⟩
+
+theorem bitsOf_zero (k : Nat) : bitsOf k 0 = [] := by
+  apply List.eq_nil_iff_forall_not_mem.mpr
+  intro x hx
+  rw [mem_bitsOf] at hx
+  obtain ⟨i, _, h, _⟩ := hx
+  simp at h
+
+theorem toArrayFrom_length (k : Nat) (ws : List Nat) (hw : ∀ w ∈ ws, w < 2^64) :
+    (toArrayFrom k ws).length = popSum ws := by
+  induction ws generalizing k with
+  | nil => rfl
+  | cons w ws ih =>
+    have h1 : w < 2^64 := hw w (by simp)
+    rw [toArrayFrom_cons k w ws h1, List.length_append, length_bitsOf k w h1, popSum_cons,
+      ih (k+1) (fun x hx => hw x (by simp [hx]))]
+
+theorem mem_toArrayFrom_bounds (k : Nat) (ws : List Nat) (hw : ∀ w ∈ ws, w < 2^64) (x : Nat)
+    (hx : x ∈ toArrayFrom k ws) : 64 * k ≤ x ∧ x < 64 * (k + ws.length) := by
+  induction ws generalizing k with
+  | nil => simp [toArrayFrom] at hx
+  | cons w ws ih =>
+    have h1 : w < 2^64 := hw w (by simp)
+    rw [toArrayFrom_cons k w ws h1, List.mem_append] at hx
+    rcases hx with hx | hx
+    · rw [mem_bitsOf] at hx
+      obtain ⟨i, hi, _, rfl⟩ := hx
+      simp only [List.length_cons]; omega
+    · have := ih (k+1) (fun x hx => hw x (by simp [hx])) hx
+      simp only [List.length_cons]; omega
+
+/-- counting the members of one word that satisfy `p`, when `p` is given on that word by a mask -/
+theorem filter_bitsOf_length (k w m : Nat) (p : Nat → Bool) (hw : w < 2^64)
+    (hm : ∀ i, i < 64 → m.testBit i = p (64 * k + i)) :
+    ((bitsOf k w).filter p).length = popcount (w &&& m) := by
+  rw [popcount_eq _ (and_lt_left m hw)]
+  unfold bitsOf bitPos
+  rw [List.filter_map, List.length_map, List.filter_filter]
+  congr 1
+  apply List.filter_congr
+  intro i hi
+  have hi' : i < 64 := by simpa using hi
+  simp only [Function.comp, Nat.testBit_and, hm i hi']
+  rw [Bool.and_comm]
+
+/-- `Σ_k popcount (w_k &&& M k)` over the words from index `k` on -/
+def maskedSum (M : Nat → Nat) : Nat → List Nat → Nat
+  | _, [] => 0
+  | k, w :: ws => popcount (w &&& M k) + maskedSum M (k + 1) ws
+
+theorem maskedSum_append (M : Nat → Nat) (k : Nat) (a b : List Nat) :
+    maskedSum M k (a ++ b) = maskedSum M k a + maskedSum M (k + a.length) b := by
+  induction a generalizing k with
+  | nil => simp [maskedSum]
+  | cons w a ih =>
+    simp only [List.cons_append, maskedSum, ih, List.length_cons]
+    have : k + 1 + a.length = k + (a.length + 1) := by omega
+    rw [this]; omega
+
+theorem maskedSum_zero (M : Nat → Nat) (k : Nat) (ws : List Nat)
+    (h : ∀ j, j < ws.length → M (k + j) = 0) : maskedSum M k ws = 0 := by
+  induction ws generalizing k with
+  | nil => rfl
+  | cons w ws ih =>
+    simp only [maskedSum]
+    have h0 := h 0 (by simp)
+    simp only [Nat.add_zero] at h0
+    rw [h0, Nat.and_zero, popcount_zero, ih (k+1)]
+    intro j hj
+    have := h (j+1) (by simp; omega)
+    rw [← this]; congr 1; omega
+
+theorem maskedSum_full (M : Nat → Nat) (k : Nat) (ws : List Nat) (hw : ∀ w ∈ ws, w < 2^64)
+    (h : ∀ j, j < ws.length → M (k + j) = wMax) : maskedSum M k ws = popSum ws := by
+  induction ws generalizing k with
+  | nil => rfl
+  | cons w ws ih =>
+    simp only [maskedSum, popSum_cons]
+    have h0 := h 0 (by simp)
+    simp only [Nat.add_zero] at h0
+    rw [h0, and_wMax (hw w (by simp)), ih (k+1) (fun x hx => hw x (by simp [hx]))]
+    intro j hj
+    have := h (j+1) (by simp; omega)
+    rw [← this]; congr 1; omega
+
+/-- counting the members satisfying `p`, when `p` is given word by word by the masks `M k` -/
+theorem filter_toArrayFrom_length (M : Nat → Nat) (p : Nat → Bool) (k : Nat) (ws : List Nat)
+    (hw : ∀ w ∈ ws, w < 2^64)
+    (hm : ∀ j i, j < ws.length → i < 64 → (M (k + j)).testBit i = p (64 * (k + j) + i)) :
+    ((toArrayFrom k ws).filter p).length = maskedSum M k ws := by
+  induction ws generalizing k with
+  | nil => rfl
+  | cons w ws ih =>
+    have h1 : w < 2^64 := hw w (by simp)
+    rw [toArrayFrom_cons k w ws h1, List.filter_append, List.length_append, maskedSum,
+      filter_bitsOf_length k w (M k) p h1 (fun i hi => by simpa using hm 0 i (by simp) hi),
+      ih (k+1) (fun x hx => hw x (by simp [hx]))]
+    intro j i hj hi
+    have := hm (j+1) i (by simp; omega) hi
+    have e : k + (j + 1) = k + 1 + j := by omega
+    rw [e] at this; exact this
+
+/-! ### counting over `List.range 65536` -/
+
+theorem sorted_ext : ∀ (l1 l2 : List Nat), Sorted l1 → Sorted l2 → (∀ x, x ∈ l1 ↔ x ∈ l2) → l1 = l2 := by
+  intro l1
+  induction l1 with
+  | nil =>
+    intro l2 _ _ h
+    cases l2 with
+    | nil => rfl
+    | cons b l2 => exact absurd ((h b).mpr (by simp)) (by simp)
+  | cons a l1 ih =>
+    intro l2 h1 h2 h
+    cases l2 with
+    | nil => exact absurd ((h a).mp (by simp)) (by simp)
+    | cons b l2 =>
+      unfold Sorted at h1 h2
+      rw [List.pairwise_cons] at h1 h2
+      have hab : a = b := by
+        have ha := (h a).mp (by simp)
+        have hb := (h b).mpr (by simp)
+        rw [List.mem_cons] at ha hb
+        rcases ha with ha | ha
+        · exact ha
+        · rcases hb with hb | hb
+          · exact hb.symm
+          · have := h1.1 b hb; have := h2.1 a ha; omega
+      subst hab
+      congr 1
+      apply ih l2 h1.2 h2.2
+      intro x
+      have hx := h x
+      rw [List.mem_cons, List.mem_cons] at hx
+      constructor
+      · intro hm
+        rcases hx.mp (Or.inr hm) with e | e
+        · have := h1.1 x hm; omega
+        · exact e
+      · intro hm
+        rcases hx.mpr (Or.inr hm) with e | e
+        · have := h2.1 x hm; omega
+        · exact e
+
+theorem toArray_eq_filter (b : BStore) (hb : b.Inv) :
+    b.toArray = (List.range 65536).filter (fun x => b.test x) := by
+  apply sorted_ext _ _ (sorted_toArray b hb) (List.Pairwise.filter _ List.pairwise_lt_range)
+  intro x
+  rw [mem_toArray b hb, List.mem_filter, List.mem_range]
+
+theorem len_eq_countP (b : BStore) (hb : b.Inv) :
+    b.len = (List.range 65536).countP (fun x => b.test x) := by
+  rw [← length_toArray b hb, toArray_eq_filter b hb, List.countP_eq_length_filter]
+
+/-- cardinality of a well-shaped word list, as a count over all 65536 positions -/
+theorem popSum_eq_countP (bits : List Nat) (hl : bits.length = 1024) (hw : ∀ w ∈ bits, w < 2^64) :
+    popSum bits = (List.range 65536).countP (fun x => (word bits (x / 64)).testBit (x % 64)) :=
+  len_eq_countP { len := popSum bits, bits := bits } ⟨hl, hw, rfl⟩
+
+theorem countP_or_and {α} (l : List α) (p q : α → Bool) :
+    l.countP (fun x => p x || q x) + l.countP (fun x => p x && q x) = l.countP p + l.countP q := by
+  induction l with
+  | nil => simp
+  | cons a l ih =>
+    simp only [List.countP_cons]
+    cases hp : p a <;> cases hq : q a <;> simp <;> omega
+
+theorem countP_not_and {α} (l : List α) (p q : α → Bool) :
+    l.countP (fun x => !p x && q x) + l.countP (fun x => p x && q x) = l.countP q := by
+  induction l with
+  | nil => simp
+  | cons a l ih =>
+    simp only [List.countP_cons]
+    cases hp : p a <;> cases hq : q a <;> simp <;> omega
+
+theorem countP_interval (s e n : Nat) :
+    (List.range n).countP (fun x => decide (s ≤ x) && decide (x ≤ e)) = min n (e + 1) - s := by
+  induction n with
+  | zero => simp
+  | succ n ih =>
+    rw [List.range_succ, List.countP_append, ih]
+    simp only [List.countP_cons, List.countP_nil]
+    by_cases h1 : s ≤ n <;> by_cases h2 : n ≤ e <;> simp [h1, h2] <;> omega
+
 /-- number of set bits inside `[s, e]` -/
 def countIn (b : BStore) (s e : Nat) : Nat := (b.toArray.filter (fun x => decide (s ≤ x) && decide (x ≤ e))).length
 
-/-- guard `s ≤ e`: `Store::insert_range` returns early on an empty range -/
+/-! ## Range operations (`insert_range`, `remove_range`, `contains_range`) and `rank` -/
+
+/-- the masked sum for a range inside a single word -/
+theorem maskedSum_range_same (bits : List Nat) (s e : Nat) (h : s / 64 = e / 64) (hk : s / 64 < bits.length) :
+    maskedSum (rangeMask s e) 0 bits = popcount (word bits (s / 64) &&& (maskLE (e % 64) &&& maskGE (s % 64))) := by
+  have hd := split_at bits (s / 64) hk
+  have hlen : (bits.take (s / 64)).length = s / 64 := by simp; omega
+  calc maskedSum (rangeMask s e) 0 bits
+      = maskedSum (rangeMask s e) 0 (bits.take (s / 64) ++ word bits (s / 64) :: bits.drop (s / 64 + 1)) := by rw [← hd]
+    _ = _ := by
+      rw [maskedSum_append, maskedSum, hlen, Nat.zero_add, rangeMask_same s e h,
+        maskedSum_zero _ 0, maskedSum_zero _ (s / 64 + 1)]
+      · omega
+      · intro j _; apply rangeMask_out; omega
+      · intro j hj; apply rangeMask_out; rw [hlen] at hj; omega
+
+/-- the masked sum for a range spanning several words: first word, full middle words, last word -/
+theorem maskedSum_range_span (bits : List Nat) (hw : ∀ w ∈ bits, w < 2^64) (s e : Nat) (h : s / 64 < e / 64)
+    (hk : e / 64 < bits.length) :
+    maskedSum (rangeMask s e) 0 bits =
+      popcount (word bits (s / 64) &&& maskGE (s % 64))
+      + popSum ((bits.drop (s / 64 + 1)).take (e / 64 - (s / 64 + 1)))
+      + popcount (word bits (e / 64) &&& maskLE (e % 64)) := by
+  have hd := split_range bits (s / 64) (e / 64) h hk
+  have hlen : (bits.take (s / 64)).length = s / 64 := by simp; omega
+  have hlen2 : ((bits.drop (s / 64 + 1)).take (e / 64 - (s / 64 + 1))).length = e / 64 - (s / 64 + 1) := by
+    simp; omega
+  calc maskedSum (rangeMask s e) 0 bits
+      = maskedSum (rangeMask s e) 0 (bits.take (s / 64) ++ word bits (s / 64) ::
+          (((bits.drop (s / 64 + 1)).take (e / 64 - (s / 64 + 1))) ++ word bits (e / 64) :: bits.drop (e / 64 + 1))) := by
+        rw [← hd]
+    _ = _ := by
+      rw [maskedSum_append, maskedSum, maskedSum_append, maskedSum, hlen, hlen2, Nat.zero_add,
+        rangeMask_first s e h]
+      have e1 : s / 64 + 1 + (e / 64 - (s / 64 + 1)) = e / 64 := by omega
+      rw [e1, rangeMask_last s e h, maskedSum_zero _ 0, maskedSum_zero _ (e / 64 + 1),
+        maskedSum_full _ (s / 64 + 1)]
+      · omega
+      · intro w hm; exact hw w (List.mem_of_mem_drop (List.mem_of_mem_take hm))
+      · intro j hj; rw [hlen2] at hj; apply rangeMask_mid <;> omega
+      · intro j _; apply rangeMask_out; omega
+      · intro j hj; rw [hlen] at hj; apply rangeMask_out; omega
+
+theorem countIn_eq_maskedSum (b : BStore) (hb : b.Inv) (s e : Nat) :
+    b.countIn s e = maskedSum (rangeMask s e) 0 b.bits := by
+  unfold countIn toArray
+  apply filter_toArrayFrom_length (rangeMask s e) _ 0 b.bits hb.words
+  intro j i _ hi
+  rw [rangeMask_testBit s e (0 + j) i hi]
+
+/-! ### insert_range -/
+
+theorem insertRange_same (b : BStore) (s e : Nat) (h : s / 64 = e / 64) :
+    b.insertRange s e =
+      ({ len := b.len + (e - s + 1 - popcount (word b.bits (s / 64) &&& (maskLE (e % 64) &&& maskGE (s % 64)))),
+         bits := b.bits.set (s / 64) (word b.bits (s / 64) ||| (maskLE (e % 64) &&& maskGE (s % 64))) },
+       e - s + 1 - popcount (word b.bits (s / 64) &&& (maskLE (e % 64) &&& maskGE (s % 64)))) := by
+  have h' : wkey s = wkey e := h
+  unfold insertRange
+  rw [if_pos h']
+  rfl
+
+theorem insertRange_span (b : BStore) (s e : Nat) (h : ¬ s / 64 = e / 64) :
+    b.insertRange s e =
+      (let sk := s / 64; let sb := s % 64; let ek := e / 64; let eb := e % 64
+       let bits1 := b.bits.set sk (word b.bits sk ||| maskGE sb)
+       let bits2 := fillWords bits1 (sk + 1) ek wMax
+       let existed := popcount (word b.bits sk &&& maskGE sb) + popSum ((bits1.drop (sk + 1)).take (ek - (sk + 1)))
+         + popcount (word bits2 ek &&& maskLE eb)
+       ({ len := b.len + (e - s + 1 - existed), bits := bits2.set ek (word bits2 ek ||| maskLE eb) },
+        e - s + 1 - existed)) := by
+  have h' : ¬ wkey s = wkey e := h
+  unfold insertRange
+  rw [if_neg h']
+  rfl
+
+theorem insertRange_len (b : BStore) (s e : Nat) :
+    (b.insertRange s e).1.len = b.len + (b.insertRange s e).2 := by
+  unfold insertRange; simp only []; split <;> rfl
+
+theorem insertRange_snd (b : BStore) (hl : b.bits.length = 1024) (hw : ∀ w ∈ b.bits, w < 2^64)
+    (s e : Nat) (hse : s ≤ e) (he : e < 65536) :
+    (b.insertRange s e).2 = e - s + 1 - maskedSum (rangeMask s e) 0 b.bits := by
+  have hsk : s / 64 < 1024 := by omega
+  have hek : e / 64 < 1024 := by omega
+  by_cases h : s / 64 = e / 64
+  · rw [insertRange_same b s e h]
+    rw [maskedSum_range_same b.bits s e h (by omega)]
+  · rw [insertRange_span b s e h]
+    have hlt : s / 64 < e / 64 := by
+      have : s / 64 ≤ e / 64 := Nat.div_le_div_right hse
+      omega
+    rw [maskedSum_range_span b.bits hw s e hlt (by omega)]
+    simp only []
+    rw [List.drop_set_of_lt (by omega), word_fillWords _ _ _ _ _ (by omega) (by simp; omega),
+      if_neg (by omega), word_set _ _ _ _ (by omega), if_neg (by omega)]
+
+theorem insertRange_length (b : BStore) (hl : b.bits.length = 1024) (s e : Nat) (hse : s ≤ e) (he : e < 65536) :
+    (b.insertRange s e).1.bits.length = 1024 := by
+  have hsk : s / 64 < 1024 := by omega
+  have hek : e / 64 < 1024 := by omega
+  have hle : s / 64 ≤ e / 64 := Nat.div_le_div_right hse
+  by_cases h : s / 64 = e / 64
+  · rw [insertRange_same b s e h]; simp [hl]
+  · rw [insertRange_span b s e h]; simp only [List.length_set]
+    rw [length_fillWords _ _ _ _ (by omega) (by simp; omega)]
+    simp [hl]
+
+theorem insertRange_word (b : BStore) (hl : b.bits.length = 1024) (hw : ∀ w ∈ b.bits, w < 2^64)
+    (s e : Nat) (hse : s ≤ e) (he : e < 65536) (k : Nat) (hk : k < 1024) :
+    word (b.insertRange s e).1.bits k = word b.bits k ||| rangeMask s e k := by
+  have hsk : s / 64 < 1024 := by omega
+  have hek : e / 64 < 1024 := by omega
+  have hle : s / 64 ≤ e / 64 := Nat.div_le_div_right hse
+  by_cases h : s / 64 = e / 64
+  · rw [insertRange_same b s e h]
+    simp only []
+    rw [word_set _ _ _ _ (by omega)]
+    by_cases c : k = s / 64
+    · subst c; rw [if_pos rfl, rangeMask_same s e h]
+    · rw [if_neg c, rangeMask_out s e k (by omega), Nat.or_zero]
+  · rw [insertRange_span b s e h]
+    simp only []
+    have hfl : (fillWords (b.bits.set (s / 64) (word b.bits (s / 64) ||| maskGE (s % 64))) (s / 64 + 1) (e / 64) wMax).length
+        = 1024 := by
+      rw [length_fillWords _ _ _ _ (by omega) (by simp; omega)]; simp [hl]
+    rw [word_set _ _ _ _ (by omega), word_fillWords _ _ _ _ _ (by omega) (by simp; omega),
+      word_fillWords _ _ _ _ _ (by omega) (by simp; omega), word_set _ _ _ _ (by omega),
+      word_set _ _ _ _ (by omega)]
+    by_cases c1 : k = e / 64
+    · subst c1
+      rw [if_pos rfl, if_neg (by omega), if_neg (by omega), rangeMask_last s e (by omega)]
+    · rw [if_neg c1]
+      by_cases c2 : s / 64 + 1 ≤ k ∧ k < e / 64
+      · rw [if_pos c2, rangeMask_mid s e k (by omega) (by omega), or_wMax (word_lt hw k)]
+      · rw [if_neg c2]
+        by_cases c3 : k = s / 64
+        · subst c3; rw [if_pos rfl, rangeMask_first s e (by omega)]
+        · rw [if_neg c3, rangeMask_out s e k (by omega), Nat.or_zero]
+
+/-- `test` read through `word` -/
+theorem test_eq (b : BStore) (x : Nat) : b.test x = (word b.bits (x / 64)).testBit (x % 64) := rfl
+
+theorem words_of_word (bits : List Nat) (h : ∀ k, k < bits.length → word bits k < 2^64) :
+    ∀ w ∈ bits, w < 2^64 := by
+  intro w hm
+  obtain ⟨k, hk, rfl⟩ := List.getElem_of_mem hm
+  rw [← word_eq_getElem hk]; exact h k hk
+
+theorem countIn_eq_countP (b : BStore) (hb : b.Inv) (s e : Nat) :
+    b.countIn s e = (List.range 65536).countP (fun x => (decide (s ≤ x) && decide (x ≤ e)) && b.test x) := by
+  unfold countIn
+  rw [toArray_eq_filter b hb, List.filter_filter, List.countP_eq_length_filter]
+
 theorem insertRange_spec (b : BStore) (hb : b.Inv) (s e : Nat) (hse : s ≤ e) (he : e < 65536) :
     (b.insertRange s e).1.Inv ∧
     (∀ x, x < 65536 → (b.insertRange s e).1.test x = ((decide (s ≤ x) && decide (x ≤ e)) || b.test x)) ∧
-    (b.insertRange s e).2 = (e - s + 1) - b.countIn s e := by sorry
+    (b.insertRange s e).2 = (e - s + 1) - b.countIn s e := by
+  have hlen := insertRange_length b hb.length s e hse he
+  have hword := insertRange_word b hb.length hb.words s e hse he
+  have hsnd : (b.insertRange s e).2 = (e - s + 1) - b.countIn s e := by
+    rw [insertRange_snd b hb.length hb.words s e hse he, countIn_eq_maskedSum b hb]
+  have htest : ∀ x, x < 65536 →
+      (b.insertRange s e).1.test x = ((decide (s ≤ x) && decide (x ≤ e)) || b.test x) := by
+    intro x hx
+    rw [test_eq, hword (x / 64) (by omega), Nat.testBit_or, rangeMask_testBit s e (x / 64) (x % 64) (by omega),
+      test_eq, Bool.or_comm]
+    have : 64 * (x / 64) + x % 64 = x := by omega
+    rw [this]
+  have hwords : ∀ w ∈ (b.insertRange s e).1.bits, w < 2^64 := by
+    apply words_of_word
+    intro k hk
+    rw [hword k (by omega)]
+    exact or_lt (word_lt hb.words k) (rangeMask_lt s e k)
+  refine ⟨⟨hlen, hwords, ?_⟩, htest, hsnd⟩
+  -- the cached cardinality
+  rw [insertRange_len, hsnd, popSum_eq_countP _ hlen hwords, len_eq_countP b hb, countIn_eq_countP b hb]
+  have h1 := countP_or_and (List.range 65536) (fun x => decide (s ≤ x) && decide (x ≤ e)) (fun x => b.test x)
+  have h2 := countP_interval s e 65536
+  have h3 : (List.range 65536).countP (fun x => (b.insertRange s e).1.test x)
+      = (List.range 65536).countP (fun x => (decide (s ≤ x) && decide (x ≤ e)) || b.test x) := by
+    apply List.countP_congr
+    intro x hx
+    rw [htest x (by simpa using hx)]
+  have h4 : (List.range 65536).countP (fun x => (decide (s ≤ x) && decide (x ≤ e)) && b.test x)
+      ≤ (List.range 65536).countP (fun x => decide (s ≤ x) && decide (x ≤ e)) := by
+    apply List.countP_mono_left
+    intro x _ h; simp only [Bool.and_eq_true] at h ⊢; exact h.1
+  show _ = (List.range 65536).countP (fun x => (b.insertRange s e).1.test x)
+  rw [h3]
+  omega
+
+/-! ### remove_range -/
+
+theorem removeRange_same (b : BStore) (s e : Nat) (h : s / 64 = e / 64) :
+    b.removeRange s e =
+      ({ len := b.len - popcount (word b.bits (s / 64) &&& (shlMax (s % 64) &&& shrMax (e % 64))),
+         bits := b.bits.set (s / 64) (word b.bits (s / 64) &&& not64 (shlMax (s % 64) &&& shrMax (e % 64))) },
+       popcount (word b.bits (s / 64) &&& (shlMax (s % 64) &&& shrMax (e % 64)))) := by
+  have h' : wkey s = wkey e := h
+  unfold removeRange
+  rw [if_pos h']
+  rfl
+
+theorem removeRange_span (b : BStore) (s e : Nat) (h : ¬ s / 64 = e / 64) :
+    b.removeRange s e =
+      (let sk := s / 64; let sb := s % 64; let ek := e / 64; let eb := e % 64
+       let bits1 := b.bits.set sk (word b.bits sk &&& not64 (shlMax sb))
+       let bits2 := fillWords bits1 (sk + 1) ek 0
+       let removed := popcount (word b.bits sk &&& shlMax sb) + popSum ((bits1.drop (sk + 1)).take (ek - (sk + 1)))
+         + popcount (word bits2 ek &&& shrMax eb)
+       ({ len := b.len - removed, bits := bits2.set ek (word bits2 ek &&& not64 (shrMax eb)) }, removed)) := by
+  have h' : ¬ wkey s = wkey e := h
+  unfold removeRange
+  rw [if_neg h']
+  rfl
+
+theorem removeRange_len (b : BStore) (s e : Nat) :
+    (b.removeRange s e).1.len = b.len - (b.removeRange s e).2 := by
+  by_cases h : s / 64 = e / 64
+  · rw [removeRange_same b s e h]
+  · rw [removeRange_span b s e h]
+
+theorem removeRange_snd (b : BStore) (hl : b.bits.length = 1024) (hw : ∀ w ∈ b.bits, w < 2^64)
+    (s e : Nat) (hse : s ≤ e) (he : e < 65536) :
+    (b.removeRange s e).2 = maskedSum (rangeMask s e) 0 b.bits := by
+  have hsk : s / 64 < 1024 := by omega
+  have hek : e / 64 < 1024 := by omega
+  have hsb : s % 64 < 64 := by omega
+  have heb : e % 64 < 64 := by omega
+  by_cases h : s / 64 = e / 64
+  · rw [removeRange_same b s e h]
+    rw [maskedSum_range_same b.bits s e h (by omega), shlMax_eq hsb, shrMax_eq heb,
+      Nat.and_comm (maskGE (s % 64))]
+  · rw [removeRange_span b s e h]
+    have hlt : s / 64 < e / 64 := by
+      have : s / 64 ≤ e / 64 := Nat.div_le_div_right hse
+      omega
+    rw [maskedSum_range_span b.bits hw s e hlt (by omega)]
+    simp only []
+    rw [List.drop_set_of_lt (by omega), word_fillWords _ _ _ _ _ (by omega) (by simp; omega),
+      if_neg (by omega), word_set _ _ _ _ (by omega), if_neg (by omega), shlMax_eq hsb, shrMax_eq heb]
+
+theorem removeRange_length (b : BStore) (hl : b.bits.length = 1024) (s e : Nat) (hse : s ≤ e) (he : e < 65536) :
+    (b.removeRange s e).1.bits.length = 1024 := by
+  have hsk : s / 64 < 1024 := by omega
+  have hek : e / 64 < 1024 := by omega
+  have hle : s / 64 ≤ e / 64 := Nat.div_le_div_right hse
+  by_cases h : s / 64 = e / 64
+  · rw [removeRange_same b s e h]; simp [hl]
+  · rw [removeRange_span b s e h]; simp only [List.length_set]
+    rw [length_fillWords _ _ _ _ (by omega) (by simp; omega)]
+    simp [hl]
+
+theorem removeRange_word (b : BStore) (hl : b.bits.length = 1024) (hw : ∀ w ∈ b.bits, w < 2^64)
+    (s e : Nat) (hse : s ≤ e) (he : e < 65536) (k : Nat) (hk : k < 1024) :
+    word (b.removeRange s e).1.bits k = word b.bits k &&& not64 (rangeMask s e k) := by
+  have hsk : s / 64 < 1024 := by omega
+  have hek : e / 64 < 1024 := by omega
+  have hsb : s % 64 < 64 := by omega
+  have heb : e % 64 < 64 := by omega
+  have hle : s / 64 ≤ e / 64 := Nat.div_le_div_right hse
+  by_cases h : s / 64 = e / 64
+  · rw [removeRange_same b s e h]
+    simp only []
+    rw [word_set _ _ _ _ (by omega)]
+    by_cases c : k = s / 64
+    · subst c; rw [if_pos rfl, rangeMask_same s e h, shlMax_eq hsb, shrMax_eq heb, Nat.and_comm (maskGE (s % 64))]
+    · rw [if_neg c, rangeMask_out s e k (by omega), and_not64_zero (word_lt hw k)]
+  · rw [removeRange_span b s e h]
+    simp only []
+    have hfl : (fillWords (b.bits.set (s / 64) (word b.bits (s / 64) &&& not64 (shlMax (s % 64)))) (s / 64 + 1) (e / 64) 0).length
+        = 1024 := by
+      rw [length_fillWords _ _ _ _ (by omega) (by simp; omega)]; simp [hl]
+    rw [word_set _ _ _ _ (by omega), word_fillWords _ _ _ _ _ (by omega) (by simp; omega),
+      word_fillWords _ _ _ _ _ (by omega) (by simp; omega), word_set _ _ _ _ (by omega),
+      word_set _ _ _ _ (by omega)]
+    by_cases c1 : k = e / 64
+    · subst c1
+      rw [if_pos rfl, if_neg (by omega), if_neg (by omega), rangeMask_last s e (by omega), shrMax_eq heb]
+    · rw [if_neg c1]
+      by_cases c2 : s / 64 + 1 ≤ k ∧ k < e / 64
+      · rw [if_pos c2, rangeMask_mid s e k (by omega) (by omega), not64_wMax, Nat.and_zero]
+      · rw [if_neg c2]
+        by_cases c3 : k = s / 64
+        · subst c3; rw [if_pos rfl, rangeMask_first s e (by omega), shlMax_eq hsb]
+        · rw [if_neg c3, rangeMask_out s e k (by omega), and_not64_zero (word_lt hw k)]
 
 theorem removeRange_spec (b : BStore) (hb : b.Inv) (s e : Nat) (hse : s ≤ e) (he : e < 65536) :
     (b.removeRange s e).1.Inv ∧
     (∀ x, x < 65536 → (b.removeRange s e).1.test x = (!(decide (s ≤ x) && decide (x ≤ e)) && b.test x)) ∧
-    (b.removeRange s e).2 = b.countIn s e := by sorry
+    (b.removeRange s e).2 = b.countIn s e := by
+  have hlen := removeRange_length b hb.length s e hse he
+  have hword := removeRange_word b hb.length hb.words s e hse he
+  have hsnd : (b.removeRange s e).2 = b.countIn s e := by
+    rw [removeRange_snd b hb.length hb.words s e hse he, countIn_eq_maskedSum b hb]
+  have htest : ∀ x, x < 65536 →
+      (b.removeRange s e).1.test x = (!(decide (s ≤ x) && decide (x ≤ e)) && b.test x) := by
+    intro x hx
+    have hx64 : x % 64 < 64 := by omega
+    rw [test_eq, hword (x / 64) (by omega), Nat.testBit_and, not64_testBit_of_lt (rangeMask_lt s e _),
+      rangeMask_testBit s e (x / 64) (x % 64) hx64, test_eq, Bool.and_comm]
+    have : 64 * (x / 64) + x % 64 = x := by omega
+    rw [this]
+    simp [hx64]
+  have hwords : ∀ w ∈ (b.removeRange s e).1.bits, w < 2^64 := by
+    apply words_of_word
+    intro k hk
+    rw [hword k (by omega)]
+    exact and_lt_left _ (word_lt hb.words k)
+  refine ⟨⟨hlen, hwords, ?_⟩, htest, hsnd⟩
+  rw [removeRange_len, hsnd, popSum_eq_countP _ hlen hwords, len_eq_countP b hb, countIn_eq_countP b hb]
+  have h1 := countP_not_and (List.range 65536) (fun x => decide (s ≤ x) && decide (x ≤ e)) (fun x => b.test x)
+  have h3 : (List.range 65536).countP (fun x => (b.removeRange s e).1.test x)
+      = (List.range 65536).countP (fun x => !(decide (s ≤ x) && decide (x ≤ e)) && b.test x) := by
+    apply List.countP_congr
+    intro x hx
+    rw [htest x (by simpa using hx)]
+  show _ = (List.range 65536).countP (fun x => (b.removeRange s e).1.test x)
+  rw [h3]
+  omega
+
+/-! ### contains_range -/
+
+theorem containsRange_small (b : BStore) (s e : Nat) (h : b.len < e - s + 1) : b.containsRange s e = false := by
+  unfold containsRange; rw [if_pos h]
+
+theorem containsRange_same (b : BStore) (s e : Nat) (hlen : ¬ b.len < e - s + 1) (h : s / 64 = e / 64) :
+    b.containsRange s e = (word b.bits (s / 64) &&& (maskGE (s % 64) &&& shrMax' (e % 64))
+      == (maskGE (s % 64) &&& shrMax' (e % 64))) := by
+  have h' : wkey s = wkey e := h
+  unfold containsRange
+  rw [if_neg hlen]; simp only []; rw [if_pos h']; rfl
+
+theorem containsRange_span (b : BStore) (s e : Nat) (hlen : ¬ b.len < e - s + 1) (h : ¬ s / 64 = e / 64) :
+    b.containsRange s e = ((word b.bits (s / 64) &&& maskGE (s % 64) == maskGE (s % 64))
+        && ((b.bits.drop (s / 64 + 1)).take (e / 64 - (s / 64 + 1))).all (· == wMax)
+        && (word b.bits (e / 64) &&& shrMax' (e % 64) == shrMax' (e % 64))) := by
+  have h' : ¬ wkey s = wkey e := h
+  unfold containsRange
+  rw [if_neg hlen]; simp only []; rw [if_neg h']; rfl
+
+/-- every word covers its part of the range -/
+def Covers (b : BStore) (s e : Nat) : Prop :=
+  ∀ k, k < 1024 → word b.bits k &&& rangeMask s e k = rangeMask s e k
+
+theorem covers_iff (b : BStore) (hb : b.Inv) (s e : Nat) (he : e < 65536) :
+    Covers b s e ↔ ∀ x, s ≤ x → x ≤ e → b.test x = true := by
+  constructor
+  · intro hc x h1 h2
+    have hk : x / 64 < 1024 := by omega
+    have hx64 : x % 64 < 64 := by omega
+    have h3 : (rangeMask s e (x / 64)).testBit (x % 64) = true := by
+      rw [rangeMask_testBit s e _ _ hx64]
+      have : 64 * (x / 64) + x % 64 = x := by omega
+      rw [this]; simp [h1, h2]
+    rw [← hc (x / 64) hk, Nat.testBit_and] at h3
+    rw [test_eq]
+    simp only [Bool.and_eq_true] at h3; exact h3.1
+  · intro ht k hk
+    apply word_ext (and_lt_left _ (word_lt hb.words k)) (rangeMask_lt s e k)
+    intro i hi
+    rw [Nat.testBit_and]
+    cases hm : (rangeMask s e k).testBit i
+    · simp
+    · rw [rangeMask_testBit s e k i hi] at hm
+      simp only [Bool.and_eq_true, decide_eq_true_eq] at hm
+      have := ht (64 * k + i) hm.1 hm.2
+      rw [test_eq] at this
+      have e1 : (64 * k + i) / 64 = k := by omega
+      have e2 : (64 * k + i) % 64 = i := by omega
+      rw [e1, e2] at this
+      simp [this]
+
+theorem len_ge_of_range (b : BStore) (hb : b.Inv) (s e : Nat) (hse : s ≤ e) (he : e < 65536)
+    (h : ∀ x, s ≤ x → x ≤ e → b.test x = true) : e - s + 1 ≤ b.len := by
+  rw [len_eq_countP b hb]
+  have h2 := countP_interval s e 65536
+  have h3 : (List.range 65536).countP (fun x => decide (s ≤ x) && decide (x ≤ e))
+      ≤ (List.range 65536).countP (fun x => b.test x) := by
+    apply List.countP_mono_left
+    intro x _ hx
+    simp only [Bool.and_eq_true, decide_eq_true_eq] at hx
+    exact h x hx.1 hx.2
+  omega
 
 theorem containsRange_spec (b : BStore) (hb : b.Inv) (s e : Nat) (hse : s ≤ e) (he : e < 65536) :
-    b.containsRange s e = true ↔ ∀ x, s ≤ x → x ≤ e → b.test x = true := by sorry
+    b.containsRange s e = true ↔ ∀ x, s ≤ x → x ≤ e → b.test x = true := by
+  have hsk : s / 64 < 1024 := by omega
+  have hek : e / 64 < 1024 := by omega
+  have hsb : s % 64 < 64 := by omega
+  have heb : e % 64 < 64 := by omega
+  have hle : s / 64 ≤ e / 64 := Nat.div_le_div_right hse
+  have hl := hb.length
+  by_cases hlen : b.len < e - s + 1
+  · rw [containsRange_small b s e hlen]
+    constructor
+    · intro h; exact absurd h (by simp)
+    · intro h; have := len_ge_of_range b hb s e hse he h; omega
+  · rw [← covers_iff b hb s e he]
+    by_cases h : s / 64 = e / 64
+    · rw [containsRange_same b s e hlen h, shrMax'_eq heb, Nat.and_comm (maskGE (s % 64)), beq_iff_eq,
+        ← rangeMask_same s e h]
+      constructor
+      · intro h1 k hk
+        by_cases c : k = s / 64
+        · subst c; exact h1
+        · rw [rangeMask_out s e k (by omega), Nat.and_zero]
+      · intro h1; exact h1 _ hsk
+    · rw [containsRange_span b s e hlen h, shrMax'_eq heb]
+      simp only [Bool.and_eq_true, beq_iff_eq]
+      rw [all_drop_take _ _ _ _ (by omega)]
+      have hlt : s / 64 < e / 64 := by omega
+      rw [← rangeMask_first s e hlt, ← rangeMask_last s e hlt]
+      constructor
+      · rintro ⟨⟨h1, h2⟩, h3⟩ k hk
+        by_cases c1 : k = e / 64
+        · subst c1; exact h3
+        · by_cases c2 : s / 64 + 1 ≤ k ∧ k < e / 64
+          · have := h2 k c2.1 (by omega)
+            rw [beq_iff_eq] at this
+            rw [this, rangeMask_mid s e k (by omega) (by omega), Nat.and_self]
+          · by_cases c3 : k = s / 64
+            · subst c3; exact h1
+            · rw [rangeMask_out s e k (by omega), Nat.and_zero]
+      · intro hc
+        refine ⟨⟨hc _ hsk, ?_⟩, hc _ hek⟩
+        intro k h1 h2
+        have := hc k (by omega)
+        rw [rangeMask_mid s e k (by omega) (by omega), and_wMax (word_lt hb.words k)] at this
+        rw [beq_iff_eq]; exact this
+
+/-! ### rank -/
 
 theorem rank_spec (b : BStore) (hb : b.Inv) (i : Nat) (hi : i < 65536) :
-    b.rank i = (b.toArray.filter (· ≤ i)).length := by sorry
+    b.rank i = (b.toArray.filter (· ≤ i)).length := by
+  have hk : i / 64 < b.bits.length := by rw [hb.length]; omega
+  have hlen : (b.bits.take (i / 64)).length = i / 64 := by simp; omega
+  have h1 : (b.toArray.filter (· ≤ i)).length = maskedSum (rankMask i) 0 b.bits := by
+    unfold toArray
+    apply filter_toArrayFrom_length (rankMask i) _ 0 b.bits hb.words
+    intro j i' _ hi'
+    rw [rankMask_testBit i (0 + j) i' hi']
+  rw [h1]
+  have hd := split_at b.bits (i / 64) hk
+  calc b.rank i
+      = popSum (b.bits.take (i / 64)) + popcount (word b.bits (i / 64) &&& maskLE (i % 64)) := by
+        unfold rank; simp only [wkey, wbit]; rw [popcount_shl_rank _ _ (by omega)]
+    _ = maskedSum (rankMask i) 0 (b.bits.take (i / 64) ++ word b.bits (i / 64) :: b.bits.drop (i / 64 + 1)) := by
+        rw [maskedSum_append, maskedSum, hlen, Nat.zero_add, maskedSum_full _ 0, maskedSum_zero _ (i / 64 + 1)]
+        · have : rankMask i (i / 64) = maskLE (i % 64) := by
+            unfold rankMask; rw [if_neg (by omega), if_pos rfl]
+          rw [this]; omega
+        · intro j _; unfold rankMask; rw [if_neg (by omega), if_neg (by omega)]
+        · intro w hm; exact hb.words w (List.mem_of_mem_take hm)
+        · intro j hj; rw [hlen] at hj; unfold rankMask; rw [if_pos (by omega)]
+    _ = maskedSum (rankMask i) 0 b.bits := by rw [← hd]
 
-theorem select_spec (b : BStore) (hb : b.Inv) (n : Nat) : b.select n = b.toArray[n]? := by sorry
 
-/-- `remove_smallest(n)` with `n ≤ len` drops the `n` smallest values; with `n > len` it clears -/
+/-! ## `select`, `remove_smallest`, `remove_biggest` -/
+
+/-! ### word level: `popLow`, `popLowN`, `selectBit` on `bitPos` -/
+
+theorem bitPos_zero : bitPos 0 = [] := by
+  apply List.eq_nil_iff_forall_not_mem.mpr
+  intro x hx
+  rw [mem_bitPos] at hx
+  simp at hx
+
+theorem popLow_zero : popLow 0 = 0 := by simp [popLow]
+
+theorem popLow_lt {w : Nat} (hw : w < 2^64) : popLow w < 2^64 := and_lt_left _ hw
+
+theorem bitPos_eq_cons_popLow (w : Nat) (h0 : w ≠ 0) (hw : w < 2^64) :
+    bitPos w = tz w :: bitPos (popLow w) := by
+  have htz := tz_testBit w h0
+  have hlt := tz_lt w h0 hw
+  apply sorted_ext _ _ (sorted_bitPos w)
+  · unfold Sorted
+    rw [List.pairwise_cons]
+    refine ⟨?_, sorted_bitPos _⟩
+    intro x hx
+    rw [mem_bitPos, popLow_testBit w h0] at hx
+    simp only [Bool.and_eq_true, decide_eq_true_eq] at hx
+    have h1 : ¬ x < tz w := by
+      intro hc
+      have := htz.2 x hc
+      rw [this] at hx
+      simp at hx
+    omega
+  · intro x
+    rw [List.mem_cons, mem_bitPos, mem_bitPos, popLow_testBit w h0]
+    simp only [Bool.and_eq_true, decide_eq_true_eq]
+    constructor
+    · rintro ⟨h1, h2⟩
+      by_cases hx : x = tz w
+      · exact Or.inl hx
+      · exact Or.inr ⟨h1, h2, hx⟩
+    · rintro (rfl | ⟨h1, h2, _⟩)
+      · exact ⟨hlt, htz.1⟩
+      · exact ⟨h1, h2⟩
+
+theorem bitPos_popLow (w : Nat) (hw : w < 2^64) : bitPos (popLow w) = (bitPos w).tail := by
+  by_cases h0 : w = 0
+  · subst h0; rw [popLow_zero, bitPos_zero]; rfl
+  · rw [bitPos_eq_cons_popLow w h0 hw]; rfl
+
+theorem popLowN_lt (n : Nat) : ∀ {w : Nat}, w < 2^64 → popLowN w n < 2^64 := by
+  induction n with
+  | zero => intro w hw; exact hw
+  | succ n ih => intro w hw; exact ih (popLow_lt hw)
+
+theorem bitPos_popLowN (n : Nat) : ∀ (w : Nat), w < 2^64 → bitPos (popLowN w n) = (bitPos w).drop n := by
+  induction n with
+  | zero => intro w _; rfl
+  | succ n ih =>
+    intro w hw
+    show bitPos (popLowN (popLow w) n) = _
+    rw [ih _ (popLow_lt hw), bitPos_popLow w hw, List.drop_tail]
+
+theorem bitPos_getElem?_selectBit (n : Nat) :
+    ∀ (w : Nat), w < 2^64 → n < (bitPos w).length → (bitPos w)[n]? = some (selectBit w n) := by
+  induction n with
+  | zero =>
+    intro w hw hn
+    have h0 : w ≠ 0 := by
+      intro h; subst h; rw [bitPos_zero] at hn; simp at hn
+    rw [bitPos_eq_cons_popLow w h0 hw]; rfl
+  | succ n ih =>
+    intro w hw hn
+    show _ = some (selectBit (popLow w) n)
+    have hl : n < (bitPos (popLow w)).length := by
+      rw [bitPos_popLow w hw, List.length_tail]; omega
+    rw [← ih _ (popLow_lt hw) hl, bitPos_popLow w hw, List.getElem?_tail]
+
+theorem bitsOf_popLowN (k w n : Nat) (hw : w < 2^64) : bitsOf k (popLowN w n) = (bitsOf k w).drop n := by
+  unfold bitsOf
+  rw [bitPos_popLowN n w hw, List.map_drop]
+
+/-! ### `select` -/
+
+theorem selectFrom_eq (ws : List Nat) : ∀ (k n : Nat), (∀ w ∈ ws, w < 2^64) →
+    selectFrom k ws n = (toArrayFrom k ws)[n]? := by
+  induction ws with
+  | nil => intro k n _; simp [selectFrom, toArrayFrom]
+  | cons w ws ih =>
+    intro k n hws
+    have hw : w < 2^64 := hws w (by simp)
+    have hlen := length_bitsOf k w hw
+    rw [toArrayFrom_cons k w ws hw]
+    simp only [selectFrom]
+    by_cases hn : n < popcount w
+    · rw [if_pos hn, List.getElem?_append_left (by omega)]
+      unfold bitsOf
+      rw [List.getElem?_map, bitPos_getElem?_selectBit n w hw (by rw [← popcount_eq w hw]; exact hn)]
+      rfl
+    · rw [if_neg hn, List.getElem?_append_right (by omega), hlen]
+      exact ih (k+1) (n - popcount w) (fun x hx => hws x (by simp [hx]))
+
+theorem select_spec (b : BStore) (hb : b.Inv) (n : Nat) : b.select n = b.toArray[n]? :=
+  selectFrom_eq b.bits 0 n hb.words
+
+/-! ### `remove_smallest` -/
+
+theorem length_rsLoop (ws : List Nat) : ∀ n, (rsLoop ws n).length = ws.length := by
+  induction ws with
+  | nil => intro n; rfl
+  | cons w ws ih =>
+    intro n
+    simp only [rsLoop]
+    split
+    · rfl
+    · split
+      · rfl
+      · simp [ih]
+
+theorem rsLoop_lt (ws : List Nat) : ∀ n, (∀ w ∈ ws, w < 2^64) → ∀ w ∈ rsLoop ws n, w < 2^64 := by
+  induction ws with
+  | nil => intro n _ w hw; simp [rsLoop] at hw
+  | cons w ws ih =>
+    intro n hws
+    have hw : w < 2^64 := hws w (by simp)
+    have hws' : ∀ x ∈ ws, x < 2^64 := fun x hx => hws x (by simp [hx])
+    simp only [rsLoop]
+    split
+    · intro x hx
+      rw [List.mem_cons] at hx
+      rcases hx with rfl | hx
+      · exact popLowN_lt n hw
+      · exact hws' x hx
+    · split
+      · intro x hx
+        rw [List.mem_cons] at hx
+        rcases hx with rfl | hx
+        · decide
+        · exact hws' x hx
+      · intro x hx
+        rw [List.mem_cons] at hx
+        rcases hx with rfl | hx
+        · decide
+        · exact ih _ hws' x hx
+
+theorem toArrayFrom_rsLoop (ws : List Nat) : ∀ (k n : Nat), (∀ w ∈ ws, w < 2^64) →
+    toArrayFrom k (rsLoop ws n) = (toArrayFrom k ws).drop n := by
+  induction ws with
+  | nil => intro k n _; simp [rsLoop, toArrayFrom]
+  | cons w ws ih =>
+    intro k n hws
+    have hw : w < 2^64 := hws w (by simp)
+    have hws' : ∀ x ∈ ws, x < 2^64 := fun x hx => hws x (by simp [hx])
+    have hlen := length_bitsOf k w hw
+    have h0 : (0 : Nat) < 2^64 := by decide
+    rw [toArrayFrom_cons k w ws hw]
+    simp only [rsLoop]
+    split
+    · rename_i hn
+      rw [toArrayFrom_cons _ _ _ (popLowN_lt n hw), bitsOf_popLowN k w n hw,
+        List.drop_append_of_le_length (by omega)]
+    · rename_i hn
+      split
+      · rename_i hn'
+        rw [toArrayFrom_cons _ _ _ h0, bitsOf_zero, List.nil_append, List.drop_append, hlen,
+          List.drop_eq_nil_of_le (by omega), List.nil_append, hn', List.drop_zero]
+      · rw [toArrayFrom_cons _ _ _ h0, bitsOf_zero, List.nil_append, List.drop_append, hlen,
+          List.drop_eq_nil_of_le (by omega), List.nil_append]
+        exact ih (k+1) _ hws'
+
 theorem removeSmallest_spec (b : BStore) (hb : b.Inv) (n : Nat) :
-    (b.removeSmallest n).Inv ∧ (b.removeSmallest n).toArray = b.toArray.drop n := by sorry
+    (b.removeSmallest n).Inv ∧ (b.removeSmallest n).toArray = b.toArray.drop n := by
+  unfold removeSmallest
+  split
+  · rename_i hn
+    refine ⟨inv_new, ?_⟩
+    rw [toArray_new, List.drop_eq_nil_of_le]
+    rw [length_toArray b hb]; omega
+  · rename_i hn
+    have hlt := rsLoop_lt b.bits n hb.words
+    have harr : toArrayFrom 0 (rsLoop b.bits n) = (toArrayFrom 0 b.bits).drop n :=
+      toArrayFrom_rsLoop b.bits 0 n hb.words
+    refine ⟨⟨?_, hlt, ?_⟩, harr⟩
+    · show (rsLoop b.bits n).length = 1024
+      rw [length_rsLoop]; exact hb.length
+    · show b.len - n = popSum (rsLoop b.bits n)
+      rw [← toArrayFrom_length 0 _ hlt, harr, List.length_drop, toArrayFrom_length 0 _ hb.words, hb.len]
+
+/-! ### word level: `popHigh`, `popHighN` on `bitPos` -/
+
+theorem popHigh_zero : popHigh 0 = 0 := by simp [popHigh]
+
+theorem popHigh_lt {w : Nat} (hw : w < 2^64) : popHigh w < 2^64 := and_lt_left _ hw
+
+theorem hiBit_lt (w : Nat) (h0 : w ≠ 0) (hw : w < 2^64) : hiBit w < 64 :=
+  (Nat.log2_lt h0).mpr hw
+
+theorem popHigh_testBit (w : Nat) (hw : w < 2^64) (i : Nat) :
+    (popHigh w).testBit i = (w.testBit i && decide (i ≠ hiBit w)) := by
+  unfold popHigh
+  rw [Nat.testBit_and, not64_testBit, Nat.one_shiftLeft, Nat.testBit_two_pow]
+  by_cases hi : i < 64
+  · by_cases he : hiBit w = i
+    · simp [hi, he]
+    · have he' : i ≠ hiBit w := by omega
+      simp [hi, he, he']
+  · rw [testBit_ge64 hw (by omega)]; simp
+
+/-- removing the maximum of a strictly ascending list drops its last element -/
+theorem filter_ne_max_eq_dropLast (l : List Nat) (m : Nat) (hs : Sorted l) (hm : m ∈ l)
+    (hmax : ∀ x ∈ l, x ≤ m) : l.filter (fun x => decide (x ≠ m)) = l.dropLast := by
+  induction l with
+  | nil => rfl
+  | cons a l ih =>
+    unfold Sorted at hs
+    rw [List.pairwise_cons] at hs
+    cases l with
+    | nil =>
+      have : m = a := by simpa using hm
+      subst this
+      simp
+    | cons b l =>
+      have hab : a < b := hs.1 b (by simp)
+      have hbm : b ≤ m := hmax b (by simp)
+      have ham : a ≠ m := by omega
+      have hm' : m ∈ b :: l := by
+        rw [List.mem_cons] at hm
+        rcases hm with h | h
+        · omega
+        · exact h
+      rw [List.dropLast_cons_cons, List.filter_cons_of_pos (by simpa using ham),
+        ih hs.2 hm' (fun x hx => hmax x (by simp [hx]))]
+
+theorem bitPos_popHigh (w : Nat) (hw : w < 2^64) : bitPos (popHigh w) = (bitPos w).dropLast := by
+  by_cases h0 : w = 0
+  · subst h0; rw [popHigh_zero, bitPos_zero]; rfl
+  · have hhi := hiBit_testBit w h0
+    have hlt := hiBit_lt w h0 hw
+    rw [← filter_ne_max_eq_dropLast (bitPos w) (hiBit w) (sorted_bitPos w)]
+    · unfold bitPos
+      rw [List.filter_filter]
+      apply List.filter_congr
+      intro i _
+      rw [popHigh_testBit w hw, Bool.and_comm]
+    · rw [mem_bitPos]; exact ⟨hlt, hhi.1⟩
+    · intro x hx
+      rw [mem_bitPos] at hx
+      apply Nat.le_of_not_lt
+      intro hc
+      have := hhi.2 x hc
+      rw [this] at hx
+      simp at hx
+
+theorem popHighN_lt (n : Nat) : ∀ {w : Nat}, w < 2^64 → popHighN w n < 2^64 := by
+  induction n with
+  | zero => intro w hw; exact hw
+  | succ n ih => intro w hw; exact ih (popHigh_lt hw)
+
+theorem bitPos_popHighN (n : Nat) : ∀ (w : Nat), w < 2^64 →
+    bitPos (popHighN w n) = (bitPos w).take ((bitPos w).length - n) := by
+  induction n with
+  | zero => intro w _; simp [popHighN]
+  | succ n ih =>
+    intro w hw
+    show bitPos (popHighN (popHigh w) n) = _
+    rw [ih _ (popHigh_lt hw), bitPos_popHigh w hw, List.length_dropLast, List.dropLast_eq_take,
+      List.take_take]
+    congr 1
+    omega
+
+theorem bitsOf_popHighN (k w n : Nat) (hw : w < 2^64) :
+    bitsOf k (popHighN w n) = (bitsOf k w).take ((bitsOf k w).length - n) := by
+  unfold bitsOf
+  rw [bitPos_popHighN n w hw, List.map_take, List.length_map]
+
+/-! ### `remove_biggest` -/
+
+theorem toArrayFrom_snoc (k : Nat) (a : List Nat) (w : Nat) (hw : w < 2^64) :
+    toArrayFrom k (a ++ [w]) = toArrayFrom k a ++ bitsOf (k + a.length) w := by
+  rw [toArrayFrom_append, toArrayFrom_cons _ _ _ hw, toArrayFrom_nil, List.append_nil]
+
+theorem length_rbLoop (ws : List Nat) : ∀ n, (rbLoop ws n).length = ws.length := by
+  induction ws with
+  | nil => intro n; rfl
+  | cons w ws ih =>
+    intro n
+    simp only [rbLoop]
+    split
+    · rfl
+    · split
+      · rfl
+      · simp [ih]
+
+theorem rbLoop_lt (ws : List Nat) : ∀ n, (∀ w ∈ ws, w < 2^64) → ∀ w ∈ rbLoop ws n, w < 2^64 := by
+  induction ws with
+  | nil => intro n _ w hw; simp [rbLoop] at hw
+  | cons w ws ih =>
+    intro n hws
+    have hw : w < 2^64 := hws w (by simp)
+    have hws' : ∀ x ∈ ws, x < 2^64 := fun x hx => hws x (by simp [hx])
+    simp only [rbLoop]
+    split
+    · intro x hx
+      rw [List.mem_cons] at hx
+      rcases hx with rfl | hx
+      · exact popHighN_lt n hw
+      · exact hws' x hx
+    · split
+      · intro x hx
+        rw [List.mem_cons] at hx
+        rcases hx with rfl | hx
+        · decide
+        · exact hws' x hx
+      · intro x hx
+        rw [List.mem_cons] at hx
+        rcases hx with rfl | hx
+        · decide
+        · exact ih _ hws' x hx
+
+theorem toArrayFrom_rbLoop (rs : List Nat) : ∀ (k n : Nat), (∀ w ∈ rs, w < 2^64) →
+    toArrayFrom k (rbLoop rs n).reverse
+      = (toArrayFrom k rs.reverse).take ((toArrayFrom k rs.reverse).length - n) := by
+  induction rs with
+  | nil => intro k n _; simp [rbLoop, toArrayFrom]
+  | cons w rs ih =>
+    intro k n hws
+    have hw : w < 2^64 := hws w (by simp)
+    have hws' : ∀ x ∈ rs, x < 2^64 := fun x hx => hws x (by simp [hx])
+    have h0 : (0 : Nat) < 2^64 := by decide
+    have hlen := length_bitsOf (k + rs.reverse.length) w hw
+    rw [List.reverse_cons, toArrayFrom_snoc k _ w hw, List.length_append, List.take_append]
+    simp only [rbLoop]
+    split
+    · rename_i hn
+      have e1 : (toArrayFrom k rs.reverse).length + (bitsOf (k + rs.reverse.length) w).length - n
+          - (toArrayFrom k rs.reverse).length = (bitsOf (k + rs.reverse.length) w).length - n := by omega
+      have e2 : (toArrayFrom k rs.reverse).take ((toArrayFrom k rs.reverse).length
+          + (bitsOf (k + rs.reverse.length) w).length - n) = toArrayFrom k rs.reverse :=
+        List.take_of_length_le (by omega)
+      rw [List.reverse_cons, toArrayFrom_snoc k _ _ (popHighN_lt n hw), bitsOf_popHighN _ w n hw, e1, e2]
+    · rename_i hn
+      have e1 : (toArrayFrom k rs.reverse).length + (bitsOf (k + rs.reverse.length) w).length - n
+          - (toArrayFrom k rs.reverse).length = 0 := by omega
+      rw [e1, List.take_zero, List.append_nil]
+      split
+      · rename_i hn'
+        rw [List.reverse_cons, toArrayFrom_snoc k _ _ h0, bitsOf_zero, List.append_nil]
+        exact (List.take_of_length_le (by omega)).symm
+      · rw [List.reverse_cons, toArrayFrom_snoc k _ _ h0, bitsOf_zero, List.append_nil, ih k _ hws']
+        congr 1
+        omega
 
 theorem removeBiggest_spec (b : BStore) (hb : b.Inv) (n : Nat) :
-    (b.removeBiggest n).Inv ∧ (b.removeBiggest n).toArray = b.toArray.take (b.toArray.length - n) := by sorry
+    (b.removeBiggest n).Inv ∧ (b.removeBiggest n).toArray = b.toArray.take (b.toArray.length - n) := by
+  unfold removeBiggest
+  split
+  · rename_i hn
+    refine ⟨inv_new, ?_⟩
+    rw [toArray_new, length_toArray b hb]
+    have : b.len - n = 0 := by omega
+    rw [this, List.take_zero]
+  · rename_i hn
+    have hrev : ∀ w ∈ b.bits.reverse, w < 2^64 := fun w hw => hb.words w (by simpa using hw)
+    have hlt : ∀ w ∈ (rbLoop b.bits.reverse n).reverse, w < 2^64 := fun w hw =>
+      rbLoop_lt b.bits.reverse n hrev w (by simpa using hw)
+    have harr : toArrayFrom 0 (rbLoop b.bits.reverse n).reverse
+        = (toArrayFrom 0 b.bits).take ((toArrayFrom 0 b.bits).length - n) := by
+      have := toArrayFrom_rbLoop b.bits.reverse 0 n hrev
+      rw [List.reverse_reverse] at this
+      exact this
+    refine ⟨⟨?_, hlt, ?_⟩, harr⟩
+    · show (rbLoop b.bits.reverse n).reverse.length = 1024
+      rw [List.length_reverse, length_rbLoop, List.length_reverse]; exact hb.length
+    · show b.len - n = popSum (rbLoop b.bits.reverse n).reverse
+      rw [← toArrayFrom_length 0 _ hlt, harr, List.length_take, toArrayFrom_length 0 _ hb.words, hb.len]
+      omega
+
 
 /-! ### word-wise binary operations (`op_bitmaps`) and relations -/
+
+theorem word_zipWith (f : Nat → Nat → Nat) (as bs : List Nat) (k : Nat)
+    (h1 : k < as.length) (h2 : k < bs.length) :
+    word (List.zipWith f as bs) k = f (word as k) (word bs k) := by
+  rw [word_eq_getElem (by simp; omega), word_eq_getElem h1, word_eq_getElem h2, List.getElem_zipWith]
+
+theorem test_div_lt {x : Nat} (hx : x < 65536) : x / 64 < 1024 := by omega
+
 theorem opBitmaps_spec (f : Nat → Nat → Nat) (g : Bool → Bool → Bool)
     (hf : ∀ x y i, x < 2^64 → y < 2^64 → (f x y).testBit i = g (x.testBit i) (y.testBit i))
     (hlt : ∀ x y, x < 2^64 → y < 2^64 → f x y < 2^64)
     (a b : BStore) (ha : a.Inv) (hb : b.Inv) :
-    (opBitmaps f a b).Inv ∧ ∀ x, x < 65536 → (opBitmaps f a b).test x = g (a.test x) (b.test x) := by sorry
+    (opBitmaps f a b).Inv ∧ ∀ x, x < 65536 → (opBitmaps f a b).test x = g (a.test x) (b.test x) := by
+  refine ⟨⟨?_, ?_, rfl⟩, ?_⟩
+  · show (List.zipWith f a.bits b.bits).length = 1024
+    rw [List.length_zipWith, ha.length, hb.length]; rfl
+  · intro w hw
+    change w ∈ List.zipWith f a.bits b.bits at hw
+    rw [List.mem_iff_getElem] at hw
+    obtain ⟨k, hk, rfl⟩ := hw
+    rw [List.getElem_zipWith]
+    exact hlt _ _ (ha.words _ (List.getElem_mem _)) (hb.words _ (List.getElem_mem _))
+  · intro x hx
+    have hk := test_div_lt hx
+    show (word (List.zipWith f a.bits b.bits) (x / 64)).testBit (x % 64) = _
+    rw [word_zipWith f _ _ _ (by rw [ha.length]; exact hk) (by rw [hb.length]; exact hk),
+      hf _ _ _ (word_lt ha.words _) (word_lt hb.words _)]
+    rfl
 
 theorem orB_spec (a b : BStore) (ha : a.Inv) (hb : b.Inv) :
-    (orB a b).Inv ∧ ∀ x, x < 65536 → (orB a b).test x = (a.test x || b.test x) := by sorry
-theorem andB_spec (a b : BStore) (ha : a.Inv) (hb : b.Inv) :
-    (andB a b).Inv ∧ ∀ x, x < 65536 → (andB a b).test x = (a.test x && b.test x) := by sorry
-theorem subB_spec (a b : BStore) (ha : a.Inv) (hb : b.Inv) :
-    (subB a b).Inv ∧ ∀ x, x < 65536 → (subB a b).test x = (a.test x && !b.test x) := by sorry
-theorem xorB_spec (a b : BStore) (ha : a.Inv) (hb : b.Inv) :
-    (xorB a b).Inv ∧ ∀ x, x < 65536 → (xorB a b).test x = (a.test x != b.test x) := by sorry
+    (orB a b).Inv ∧ ∀ x, x < 65536 → (orB a b).test x = (a.test x || b.test x) :=
+  opBitmaps_spec (· ||| ·) (· || ·) (fun x y i _ _ => Nat.testBit_or x y i)
+    (fun _ _ hx hy => or_lt hx hy) a b ha hb
 
-theorem orArr_spec (b : BStore) (hb : b.Inv) (v : List Nat) (hv : ∀ x ∈ v, x < 65536) :
-    (b.orArr v).Inv ∧ ∀ x, x < 65536 → (b.orArr v).test x = (b.test x || decide (x ∈ v)) := by sorry
-theorem subArr_spec (b : BStore) (hb : b.Inv) (v : List Nat) (hv : ∀ x ∈ v, x < 65536) :
-    (b.subArr v).Inv ∧ ∀ x, x < 65536 → (b.subArr v).test x = (b.test x && !decide (x ∈ v)) := by sorry
-/-- needs a duplicate-free `v`: a value occurring twice would be toggled twice -/
-theorem xorArr_spec (b : BStore) (hb : b.Inv) (v : List Nat) (hv : Arr.Inv v) :
-    (b.xorArr v).Inv ∧ ∀ x, x < 65536 → (b.xorArr v).test x = (b.test x != decide (x ∈ v)) := by sorry
+theorem andB_spec (a b : BStore) (ha : a.Inv) (hb : b.Inv) :
+    (andB a b).Inv ∧ ∀ x, x < 65536 → (andB a b).test x = (a.test x && b.test x) :=
+  opBitmaps_spec (· &&& ·) (· && ·) (fun x y i _ _ => Nat.testBit_and x y i)
+    (fun _ y hx _ => and_lt_left y hx) a b ha hb
+
+theorem subB_spec (a b : BStore) (ha : a.Inv) (hb : b.Inv) :
+    (subB a b).Inv ∧ ∀ x, x < 65536 → (subB a b).test x = (a.test x && !b.test x) :=
+  opBitmaps_spec (fun l r => l &&& not64 r) (fun p q => p && !q)
+    (fun x y i hx hy => by
+      show (x &&& not64 y).testBit i = (x.testBit i && !y.testBit i)
+      rw [Nat.testBit_and, not64_testBit_of_lt hy]
+      by_cases hi : i < 64
+      · simp [hi]
+      · simp [hi, testBit_ge64 hx (Nat.le_of_not_lt hi)])
+    (fun _ y hx _ => and_lt_left _ hx) a b ha hb
+
+theorem xorB_spec (a b : BStore) (ha : a.Inv) (hb : b.Inv) :
+    (xorB a b).Inv ∧ ∀ x, x < 65536 → (xorB a b).test x = (a.test x != b.test x) :=
+  opBitmaps_spec (· ^^^ ·) (fun p q => p != q) (fun x y i _ _ => by
+      show (x ^^^ y).testBit i = _
+      rw [Nat.testBit_xor])
+    (fun _ _ hx hy => xor_lt hx hy) a b ha hb
+
+/-! ### relations -/
+
+theorem all_zipWith_iff (f : Nat → Nat → Bool) (as bs : List Nat) (n : Nat)
+    (h1 : as.length = n) (h2 : bs.length = n) :
+    (List.zipWith f as bs).all id = true ↔ ∀ k, k < n → f (word as k) (word bs k) = true := by
+  rw [List.all_eq_true]
+  constructor
+  · intro h k hk
+    have hk1 : k < as.length := by omega
+    have hk2 : k < bs.length := by omega
+    have hk3 : k < (List.zipWith f as bs).length := by simp; omega
+    have := h _ (List.getElem_mem hk3)
+    rw [List.getElem_zipWith] at this
+    rw [word_eq_getElem hk1, word_eq_getElem hk2]; exact this
+  · intro h x hx
+    rw [List.mem_iff_getElem] at hx
+    obtain ⟨k, hk, rfl⟩ := hx
+    have hk' : k < n := by simp at hk; omega
+    have := h k hk'
+    rw [word_eq_getElem (by omega), word_eq_getElem (by omega)] at this
+    rw [List.getElem_zipWith]; exact this
+
+theorem forall_pos_iff (P : Nat → Nat → Prop) :
+    (∀ x, x < 65536 → P (x / 64) (x % 64)) ↔ ∀ k, k < 1024 → ∀ i, i < 64 → P k i := by
+  constructor
+  · intro h k hk i hi
+    have := h (64 * k + i) (by omega)
+    have e1 : (64 * k + i) / 64 = k := by omega
+    have e2 : (64 * k + i) % 64 = i := by omega
+    rw [e1, e2] at this; exact this
+  · intro h x hx
+    exact h _ (by omega) _ (Nat.mod_lt _ (by decide))
+
+theorem and_eq_zero_iff_bits {x : Nat} (y : Nat) (hx : x < 2^64) :
+    (x &&& y == 0) = true ↔ ∀ i, i < 64 → ¬ (x.testBit i = true ∧ y.testBit i = true) := by
+  rw [beq_iff_eq]
+  constructor
+  · intro h i _ hc
+    have : (x &&& y).testBit i = true := by rw [Nat.testBit_and, hc.1, hc.2]; rfl
+    rw [h] at this; simp at this
+  · intro h
+    apply word_ext (and_lt_left y hx) (by decide)
+    intro i hi
+    rw [Nat.testBit_and, Nat.zero_testBit]
+    have := h i hi
+    cases hxi : x.testBit i <;> cases hyi : y.testBit i <;> simp_all
+
+theorem and_eq_left_iff_bits {x : Nat} (y : Nat) (hx : x < 2^64) :
+    (x &&& y == x) = true ↔ ∀ i, i < 64 → x.testBit i = true → y.testBit i = true := by
+  rw [beq_iff_eq]
+  constructor
+  · intro h i _ hc
+    rw [← h, Nat.testBit_and] at hc
+    simp at hc; exact hc.2
+  · intro h
+    apply word_ext (and_lt_left y hx) hx
+    intro i hi
+    rw [Nat.testBit_and]
+    have := h i hi
+    cases hxi : x.testBit i <;> cases hyi : y.testBit i <;> simp_all
 
 theorem isDisjoint_spec (a b : BStore) (ha : a.Inv) (hb : b.Inv) :
-    a.isDisjoint b = true ↔ ∀ x, x < 65536 → ¬ (a.test x = true ∧ b.test x = true) := by sorry
+    a.isDisjoint b = true ↔ ∀ x, x < 65536 → ¬ (a.test x = true ∧ b.test x = true) := by
+  unfold isDisjoint
+  rw [all_zipWith_iff _ _ _ 1024 ha.length hb.length]
+  show _ ↔ ∀ x, x < 65536 → ¬ ((word a.bits (x / 64)).testBit (x % 64) = true ∧
+    (word b.bits (x / 64)).testBit (x % 64) = true)
+  rw [forall_pos_iff (fun k i => ¬ ((word a.bits k).testBit i = true ∧ (word b.bits k).testBit i = true))]
+  constructor
+  · intro h k hk
+    exact (and_eq_zero_iff_bits _ (word_lt ha.words k)).mp (h k hk)
+  · intro h k hk
+    exact (and_eq_zero_iff_bits _ (word_lt ha.words k)).mpr (h k hk)
+
 theorem isSubset_spec (a b : BStore) (ha : a.Inv) (hb : b.Inv) :
-    a.isSubset b = true ↔ ∀ x, x < 65536 → a.test x = true → b.test x = true := by sorry
-theorem interLenBitmap_spec (a b : BStore) (ha : a.Inv) (hb : b.Inv) :
-    a.interLenBitmap b = (a.toArray.filter (fun x => b.test x)).length := by sorry
+    a.isSubset b = true ↔ ∀ x, x < 65536 → a.test x = true → b.test x = true := by
+  unfold isSubset
+  rw [all_zipWith_iff _ _ _ 1024 ha.length hb.length]
+  show _ ↔ ∀ x, x < 65536 → (word a.bits (x / 64)).testBit (x % 64) = true →
+    (word b.bits (x / 64)).testBit (x % 64) = true
+  rw [forall_pos_iff (fun k i => (word a.bits k).testBit i = true → (word b.bits k).testBit i = true)]
+  constructor
+  · intro h k hk
+    exact (and_eq_left_iff_bits _ (word_lt ha.words k)).mp (h k hk)
+  · intro h k hk
+    exact (and_eq_left_iff_bits _ (word_lt ha.words k)).mpr (h k hk)
+
+/-! ### bitmap ⊕ array -/
+
+theorem orArr_eq_foldl (b : BStore) (v : List Nat) :
+    b.orArr v = v.foldl (fun b i => (b.insert i).1) b := rfl
+
+theorem subArr_eq_foldl (b : BStore) (v : List Nat) :
+    b.subArr v = v.foldl (fun b i => (b.remove i).1) b := rfl
+
+theorem orArr_spec (b : BStore) (hb : b.Inv) (v : List Nat) (hv : ∀ x ∈ v, x < 65536) :
+    (b.orArr v).Inv ∧ ∀ x, x < 65536 → (b.orArr v).test x = (b.test x || decide (x ∈ v)) := by
+  rw [orArr_eq_foldl]
+  induction v generalizing b with
+  | nil => exact ⟨hb, fun x _ => by simp⟩
+  | cons i v ih =>
+    have hi : i < 65536 := hv i (by simp)
+    obtain ⟨h1, h2, _⟩ := insert_spec b hb i hi
+    obtain ⟨h3, h4⟩ := ih (b.insert i).1 h1 (fun x hx => hv x (by simp [hx]))
+    rw [List.foldl_cons]
+    refine ⟨h3, fun x hx => ?_⟩
+    rw [h4 x hx, h2 x hx]
+    by_cases e : x = i <;> simp [e]
+
+theorem subArr_spec (b : BStore) (hb : b.Inv) (v : List Nat) (hv : ∀ x ∈ v, x < 65536) :
+    (b.subArr v).Inv ∧ ∀ x, x < 65536 → (b.subArr v).test x = (b.test x && !decide (x ∈ v)) := by
+  rw [subArr_eq_foldl]
+  induction v generalizing b with
+  | nil => exact ⟨hb, fun x _ => by simp⟩
+  | cons i v ih =>
+    have hi : i < 65536 := hv i (by simp)
+    obtain ⟨h1, h2, _⟩ := remove_spec b hb i hi
+    obtain ⟨h3, h4⟩ := ih (b.remove i).1 h1 (fun x hx => hv x (by simp [hx]))
+    rw [List.foldl_cons]
+    refine ⟨h3, fun x hx => ?_⟩
+    rw [h4 x hx, h2 x hx]
+    by_cases e : x = i <;> simp [e]
+
+/-! ### intersection cardinalities -/
+
+theorem and_shl_shr_eq (old bit : Nat) :
+    (old &&& (1 <<< bit)) >>> bit = (old.testBit bit).toNat := by
+  apply Nat.eq_of_testBit_eq
+  intro j
+  rw [Nat.testBit_shiftRight, Nat.testBit_and, Nat.one_shiftLeft, Nat.testBit_two_pow,
+    Nat.testBit_bool_toNat]
+  by_cases h : j = 0
+  · subst h; simp
+  · have : ¬ bit = bit + j := by omega
+    simp [h]
+
+theorem interLenArray_foldl (b : BStore) (v : List Nat) (acc : Nat) :
+    v.foldl (fun acc i =>
+      let old := word b.bits (wkey i)
+      acc + ((old &&& (1 <<< wbit i)) >>> wbit i)) acc
+      = acc + (v.filter (fun x => b.test x)).length := by
+  induction v generalizing acc with
+  | nil => simp
+  | cons i v ih =>
+    rw [List.foldl_cons, ih]
+    simp only [and_shl_shr_eq, List.filter_cons]
+    have e : (word b.bits (wkey i)).testBit (wbit i) = b.test i := rfl
+    rw [e]
+    cases b.test i <;> simp <;> omega
+
+set_option linter.unusedVariables false in
 theorem interLenArray_spec (b : BStore) (hb : b.Inv) (v : List Nat) (hv : ∀ x ∈ v, x < 65536) :
-    b.interLenArray v = (v.filter (fun x => b.test x)).length := by sorry
+    b.interLenArray v = (v.filter (fun x => b.test x)).length := by
+  unfold interLenArray
+  rw [interLenArray_foldl]; omega
+
+theorem word_cons_zero (y : Nat) (bs : List Nat) : word (y :: bs) 0 = y := rfl
+theorem word_cons_succ (y : Nat) (bs : List Nat) (j : Nat) : word (y :: bs) (j + 1) = word bs j := by
+  simp [word]
+
+theorem foldl_zipWith_popcount_and (M : Nat → Nat) (as bs : List Nat) (k acc : Nat)
+    (hl : as.length ≤ bs.length) (hM : ∀ j, j < bs.length → word bs j = M (k + j)) :
+    (List.zipWith (fun x y => popcount (x &&& y)) as bs).foldl (· + ·) acc
+      = acc + maskedSum M k as := by
+  induction as generalizing bs k acc with
+  | nil => simp [maskedSum]
+  | cons x as ih =>
+    cases bs with
+    | nil => simp at hl
+    | cons y bs =>
+      rw [List.zipWith_cons_cons, List.foldl_cons, maskedSum,
+        ih bs (k + 1) _ (by simpa using hl)]
+      · have h0 := hM 0 (by simp)
+        rw [word_cons_zero, Nat.add_zero] at h0
+        rw [h0]; omega
+      · intro j hj
+        have := hM (j + 1) (by simp; omega)
+        rw [word_cons_succ] at this
+        rw [this]; congr 1; omega
+
+theorem interLenBitmap_spec (a b : BStore) (ha : a.Inv) (hb : b.Inv) :
+    a.interLenBitmap b = (a.toArray.filter (fun x => b.test x)).length := by
+  unfold interLenBitmap toArray
+  rw [filter_toArrayFrom_length (fun j => word b.bits j) (fun x => b.test x) 0 a.bits ha.words,
+    foldl_zipWith_popcount_and (fun j => word b.bits j) a.bits b.bits 0 0
+      (by rw [ha.length, hb.length]; exact Nat.le_refl _) (fun j _ => by simp)]
+  · omega
+  · intro j i _ hi
+    show _ = (word b.bits ((64 * (0 + j) + i) / 64)).testBit ((64 * (0 + j) + i) % 64)
+    have e1 : (64 * (0 + j) + i) / 64 = 0 + j := by omega
+    have e2 : (64 * (0 + j) + i) % 64 = i := by omega
+    rw [e1, e2]
+
+/-! ### `bitxor_assign(&ArrayStore)` -/
+
+theorem xor_bit_eq_or {old bit : Nat} (h : old.testBit bit = false) :
+    old ^^^ (1 <<< bit) = old ||| (1 <<< bit) := by
+  apply Nat.eq_of_testBit_eq
+  intro j
+  rw [Nat.testBit_xor, Nat.testBit_or, Nat.one_shiftLeft, Nat.testBit_two_pow]
+  by_cases e : bit = j
+  · subst e; simp [h]
+  · simp [e]
+
+theorem xor_bit_eq_and_not {old bit : Nat} (hold : old < 2^64) (hbit : bit < 64)
+    (h : old.testBit bit = true) :
+    old ^^^ (1 <<< bit) = old &&& not64 (1 <<< bit) := by
+  apply Nat.eq_of_testBit_eq
+  intro j
+  rw [Nat.testBit_xor, Nat.testBit_and, not64_testBit, Nat.one_shiftLeft, Nat.testBit_two_pow]
+  by_cases e : bit = j
+  · subst e; simp [h, hbit]
+  · by_cases hj : j < 64
+    · simp [e, hj]
+    · simp [e, hj, testBit_ge64 hold (Nat.le_of_not_lt hj)]
+
+theorem xor_xor_bit_shr (old bit : Nat) : (old ^^^ (old ^^^ (1 <<< bit))) >>> bit = 1 := by
+  rw [← Nat.xor_assoc, Nat.xor_self, Nat.zero_xor, Nat.shiftLeft_shiftRight]
+
+theorem bit_and_shr_eq (old bit : Nat) :
+    ((1 <<< bit) &&& old) >>> bit = (old.testBit bit).toNat := by
+  rw [Nat.and_comm, and_shl_shr_eq]
+
+/-- one iteration of the `bitxor_assign(&ArrayStore)` loop, on the pair (`i64` length, words) -/
+def xorArrStep (p : Int × List Nat) (i : Nat) : Int × List Nat :=
+  let k := wkey i; let bit := wbit i
+  let old := word p.2 k
+  let new := old ^^^ (1 <<< bit)
+  (p.1 + 1 - 2 * (((1 <<< bit) &&& old) >>> bit : Nat), p.2.set k new)
+
+theorem xorArr_eq_foldl (b : BStore) (v : List Nat) :
+    b.xorArr v =
+      { len := ((v.foldl xorArrStep ((b.len : Int), b.bits)).1 % (W : Int)).toNat,
+        bits := (v.foldl xorArrStep ((b.len : Int), b.bits)).2 } := rfl
+
+theorem one_le_popcount_of_testBit {w bit : Nat} (hw : w < 2^64) (hbit : bit < 64)
+    (h : w.testBit bit = true) : 1 ≤ popcount w := by
+  rw [popcount_eq w hw]
+  exact List.length_pos_of_mem ((mem_bitPos w bit).mpr ⟨hbit, h⟩)
+
+theorem popcount_word_le_popSum (bits : List Nat) (k : Nat) (hk : k < bits.length) :
+    popcount (word bits k) ≤ popSum bits := by
+  have := congrArg popSum (split_at bits k hk)
+  rw [popSum_append, popSum_cons] at this
+  omega
+
+theorem xorArrStep_spec (b : BStore) (hb : b.Inv) (i : Nat) (hi : i < 65536) :
+    ∃ b' : BStore, b'.Inv ∧ xorArrStep ((b.len : Int), b.bits) i = ((b'.len : Int), b'.bits) ∧
+      ∀ x, x < 65536 → b'.test x = (b.test x != decide (x = i)) := by
+  have hbit : wbit i < 64 := Nat.mod_lt _ (by decide)
+  have hk : wkey i < b.bits.length := by rw [hb.length]; unfold wkey; omega
+  have hold : word b.bits (wkey i) < 2^64 := word_lt hb.words _
+  have ht : b.test i = (word b.bits (wkey i)).testBit (wbit i) := rfl
+  cases hc : b.test i with
+  | false =>
+    obtain ⟨h1, h2, _⟩ := insert_spec b hb i hi
+    rw [ht] at hc
+    refine ⟨(b.insert i).1, h1, ?_, ?_⟩
+    · simp only [xorArrStep, insert, bit_and_shr_eq, hc, ← xor_bit_eq_or hc, xor_xor_bit_shr]
+      simp
+    · intro x hx
+      rw [h2 x hx]
+      by_cases e : x = i
+      · subst e; rw [ht, hc]; simp
+      · simp [e]
+  | true =>
+    obtain ⟨h1, h2, _⟩ := remove_spec b hb i hi
+    rw [ht] at hc
+    have hlen : 1 ≤ b.len := by
+      rw [hb.len]
+      exact Nat.le_trans (one_le_popcount_of_testBit hold hbit hc) (popcount_word_le_popSum _ _ hk)
+    refine ⟨(b.remove i).1, h1, ?_, ?_⟩
+    · simp only [xorArrStep, remove, bit_and_shr_eq, hc, ← xor_bit_eq_and_not hold hbit hc,
+        xor_xor_bit_shr]
+      simp; omega
+    · intro x hx
+      rw [h2 x hx]
+      by_cases e : x = i
+      · subst e; rw [ht, hc]; simp
+      · simp [e]
+
+theorem xorArr_foldl_spec (v : List Nat) (hs : Sorted v) (hv : ∀ x ∈ v, x < 65536)
+    (b : BStore) (hb : b.Inv) :
+    ∃ b' : BStore, b'.Inv ∧ v.foldl xorArrStep ((b.len : Int), b.bits) = ((b'.len : Int), b'.bits) ∧
+      ∀ x, x < 65536 → b'.test x = (b.test x != decide (x ∈ v)) := by
+  induction v generalizing b with
+  | nil => exact ⟨b, hb, rfl, fun x _ => by simp⟩
+  | cons i v ih =>
+    unfold Sorted at hs
+    rw [List.pairwise_cons] at hs
+    obtain ⟨b1, hb1, e1, t1⟩ := xorArrStep_spec b hb i (hv i (by simp))
+    obtain ⟨b2, hb2, e2, t2⟩ := ih hs.2 (fun x hx => hv x (by simp [hx])) b1 hb1
+    refine ⟨b2, hb2, ?_, ?_⟩
+    · rw [List.foldl_cons, e1, e2]
+    · intro x hx
+      rw [t2 x hx, t1 x hx]
+      by_cases e : x = i
+      · subst e
+        have : x ∉ v := fun hm => Nat.lt_irrefl _ (hs.1 x hm)
+        simp [this]
+      · simp [e]
+
+theorem xorArr_spec (b : BStore) (hb : b.Inv) (v : List Nat) (hv : Arr.Inv v) :
+    (b.xorArr v).Inv ∧ ∀ x, x < 65536 → (b.xorArr v).test x = (b.test x != decide (x ∈ v)) := by
+  obtain ⟨b', hb', e, t⟩ := xorArr_foldl_spec v hv.1 hv.2 b hb
+  have hle : b'.len ≤ 65536 := by
+    rw [len_eq_countP b' hb']
+    have := List.countP_le_length (p := fun x => b'.test x) (l := List.range 65536)
+    simpa using this
+  have hW : (W : Int) = 18446744073709551616 := rfl
+  have : b.xorArr v = b' := by
+    rw [xorArr_eq_foldl, e]
+    show ({ len := ((b'.len : Int) % (W : Int)).toNat, bits := b'.bits } : BStore) = b'
+    have : ((b'.len : Int) % (W : Int)).toNat = b'.len := by
+      rw [hW]; omega
+    rw [this]
+  rw [this]
+  exact ⟨hb', t⟩
 
 end BStore
 end Roaring
